@@ -76,7 +76,7 @@ CHECKS['C15'] = dict(
     guards=dict(classes=['isZero:true:zero-coefficients', 'isZero:true:interval-free', 'isZero:false',
                          'overlap:false:intervalxinterval:meets', 'overlap:false:intervalxinterval:before', 'overlap:true:intervalxinterval:overlaps',
                          'overlap:true:intervalxinterval:during', 'overlap:true:intervalxinterval:equal', 'overlap:false:pointxinterval:during',
-                         'eq:true:same:samewin', 'eq:true:copy:samewin', 'eq:false:moved:samewin', 'eq:false:same:samewin', 'eq:false:same:otherwin']),
+                         'float-predicates:double', 'float-predicates:float', 'float-predicates:long double', 'eq:true:same:samewin', 'eq:true:copy:samewin', 'eq:false:moved:samewin', 'eq:false:same:samewin', 'eq:false:same:otherwin']),
     assumptions=[A_SHAPE],
 )
 
@@ -84,12 +84,12 @@ CHECKS['C11'] = dict(
     title='Malformed input is rejected at the boundary with the library exception',
     level='exploration',
     technique='bounded-exhaustive enumeration of argument values of every validating entry point on the real code; accepted <=> valid by an independently written rule; refusals caught by exact exception type',
-    level_text='Every sequence up to length 4 (thorough 6) over {-inf,-1,-0.0,0.0,1,2,+inf,NaN} through all four Grid constructors (plus null pointer), every index pair incl. size_t extremes for Support, every coefficient count for Spline, every knot sequence up to length 5 over {0,1,2,NaN} x {no grid, matching, extra point, moved point} x orders 0..5 for the generator, every count pair for linearCombination, every size pair and every boundary array (node, derivative 0..order+2 at every position, orders 1..4) for interpolate with a bounds-checked stub solver.',
+    level_text='Every sequence up to length 4 (thorough 5) over {-inf,-1,-0.0,0.0,denorm_min,1,1+ulp,2,+inf,NaN} through all four Grid constructors (plus null pointer), every index pair incl. size_t extremes for Support, every coefficient count for Spline, every knot sequence up to length 5 over {0,1,1+ulp,2,NaN} x {no grid, matching, extra point, moved point} x orders 0..5 for the generator, every count pair for linearCombination, every size pair and every boundary array (node, derivative 0..order+2 at every position, orders 1..4) for interpolate with a bounds-checked stub solver.',
     level_note='Trusted: the validity rules written in checks/c11_validation.cpp from the property statement. Sequences longer than the bound are covered by A-shape only (the scans compare neighbours). Support(grid,k,k), k>0 may be accepted (as empty) or refused (DESIGN.md 5).',
     units=std_units('checks/c11_validation.cpp'),
     rule='cases = one argument tuple of one validating entry point. Non-trivial = the input is valid (the accepted side); invalid inputs are the other side of the equivalence and are all executed too.',
     bounds=dict(quick='grid sequences len<=4 (double) / <=5 (rational); generator knots len<=5; supports on n=2..4; interpolation orders 1..4',
-                thorough='grid sequences len<=6 (double); generator knots len<=6 (double) / <=7 (rational)'),
+                thorough='grid sequences len<=5 (double); generator knots len<=6 (double) / <=7 (rational)'),
     guards=dict(classes=[x + y for x in ['Grid', 'Support', 'Spline', 'Generator', 'generateBSplines', 'linearCombination', 'interpolate:sizes', 'interpolate:boundaries']
                          for y in [':valid', ':invalid']] + ['Support:either']),
     assumptions=[A_SHAPE],
@@ -110,7 +110,7 @@ CHECKS['C03'] = dict(
                 thorough='4 grid families n=5 plus one 6-point grid; orders 0..3 plus (4,0),(0,4); all lincomb triples; histories depth 6 (order 2) and 5 (order 1)'),
     guards=dict(classes=['add:intervalxinterval:' + r for r in ALLEN13] + ['mul:intervalxinterval:' + r for r in ALLEN13] +
                 ['iadd:intervalxinterval:before', 'isub:pointxinterval:during', 'add:emptyxinterval:n/a', 'scalar:a/c', 'scalar:c*a', 'self:a*a', 'self:a-=a', 'assign',
-                 'lincomb:k1', 'lincomb:k2', 'lincomb:k3', 'large:binary', 'large:lincomb', 'history:+=src0', 'history:=move(src1)', 'history:-=src4', 'history:/=3'],
+                 'lincomb:k1', 'lincomb:k2', 'lincomb:k3', 'copygrid', 'large:binary', 'large:lincomb', 'history:+=src0', 'history:=move(src1)', 'history:-=src4', 'history:/=3'],
                 counters=['states', 'transitions']),
     mc_note='states = distinct exact target values reached (counted per worker partition below the split level, so a state reached by two workers is counted twice); transitions = operator applications executed and compared.',
     assumptions=[A_SHAPE, A_POLY],
@@ -152,7 +152,7 @@ CHECKS['C06'] = dict(
     bounds=dict(quick='operators {I, X1, Dx1, V*Dx1}^2, orders 0..2, nonuni5', thorough='8 operators squared, orders 0..3, nonuni5 and far5'),
     guards=dict(classes=['common:intervalxinterval:' + r for r in ['equal', 'overlaps', 'overlapped-by', 'starts', 'started-by', 'finishes', 'finished-by', 'contains', 'during']] +
                 ['nocommon:intervalxinterval:' + r for r in ['before', 'after', 'meets', 'met-by']] +
-                ['same-type-different-state', 'factor:interval:ends-inside-grid', 'factor:interval:starts-inside-grid', 'factor:point:ends-inside-grid:starts-inside-grid', 'factor:empty:ends-inside-grid', 'factor:interval']),
+                ['same-type-different-state', 'same-object', 'factor:interval:ends-inside-grid', 'factor:interval:starts-inside-grid', 'factor:point:ends-inside-grid:starts-inside-grid', 'factor:empty:ends-inside-grid', 'factor:interval']),
     assumptions=[A_SHAPE, A_POLY],
 )
 
@@ -219,7 +219,7 @@ def c05_units(tier, bmode='exact', owner='C05', plan=None):
     from driver import VERIF, BUILD
     gdir = os.path.join(BUILD, owner, 'gen')
     if plan is None:
-        plan = [('k1', 12), ('fixed', 2), ('uu', 32)] if tier == 'quick' else [('k1', 12), ('fixed', 2), ('k2', 208), ('red3', 352)]
+        plan = [('k1', 24), ('fixed', 2), ('uu', 32)] if tier == 'quick' else [('k1', 24), ('fixed', 2), ('k2', 208), ('red3', 352)]
     us = []
     for mode, ntus in plan:
         subprocess.run(['python3', os.path.join(VERIF, 'gen', 'gen_exprs.py'), gdir, mode, str(ntus)], check=True, stdout=subprocess.DEVNULL)
@@ -234,11 +234,11 @@ CHECKS['C05'] = dict(
     deadline=dict(quick=600, thorough=4500),
     engine='E2 program enumerator x E1 input enumerator',
     technique='exhaustive enumeration of programs: every operator-expression tree up to a node bound over a fixed grammar is generated as C++ (a distinct template instantiation each) together with its reference AST, applied by the real library to every operand/factor placement and compared exactly with a reference interpreter of the AST',
-    level_text='All 246 expression trees with at most one operator node over {I, X<1>, X<2>, Dx<1>, Dx<2>, spline factor} x {unary minus, c*A, A*c, A/c, A+c, c+A, A-c, c-A with c of the scalar type, of type int and of type size_t} x {A*B, A+B, A-B} (thorough: all 14166 trees with at most two nodes and all 36912 three-node trees of a reduced grammar), plus the commutator, the four example Hamiltonians and deeper nests; each applied to splines of order 0..2 on every window of a 5-point grid with unit/zero/generic coefficients and, for trees with a spline factor, 7 factor placements (ending inside, starting inside, point-like, empty, ...) x 2 factor values. The result must denote exactly ref_apply(AST, operand).',
+    level_text='All 246 expression trees with at most one operator node (the one-scalar trees once per special scalar value 2, 1, 0, -1, 1/3, i.e. 606 programs) over {I, X<1>, X<2>, Dx<1>, Dx<2>, spline factor} x {unary minus, c*A, A*c, A/c, A+c, c+A, A-c, c-A with c of the scalar type, of type int and of type size_t} x {A*B, A+B, A-B} (thorough: all 14166 trees with at most two nodes and all 36912 three-node trees of a reduced grammar), plus the commutator, the four example Hamiltonians and deeper nests; each applied to splines of order 0..2 on every window of a 5-point grid with unit/zero/generic coefficients and, for trees with a spline factor, 7 factor placements (ending inside, starting inside, point-like, empty, ...) x 2 factor values (the second on an equal grid held in a distinct object). The result must denote exactly ref_apply(AST, operand).',
     level_note='Trusted: GMP, the recursive interpreter ref_apply in engine/refpp.h, gen/gen_exprs.py emitting C++ and AST from one object. Trees larger than the bound are not instantiated; operator classes are compositional (a node sees only its children\'s output arrays), so two-node nesting exercises every parent/child pair of node kinds. Expressions are built from temporaries (named lvalue operators do not compile in compound expressions).',
     units=c05_units,
     rule='cases = (expression tree, factor window and value, operand order, operand window, coefficient pattern). Non-trivial = the reference result is a non-zero function. counters.trees = number of distinct expression trees compiled and run.',
-    bounds=dict(quick='246 trees (<= 1 operator node) + 1452 two-node trees in which a scalar/unary node wraps a scalar/unary node directly + 10 fixed deeper trees', thorough='14166 trees (<= 2 nodes) + 36912 trees (3 nodes, reduced grammar {X1,Dx1,V; -A, i*A, A/i, A/c, A-c, i-A, A-u; * + -}) + fixed list'),
+    bounds=dict(quick='606 programs from the 246 trees with <= 1 operator node (special scalar values) + 1452 two-node trees in which a scalar/unary node wraps a scalar/unary node directly + 10 fixed deeper trees', thorough='14166 trees (<= 2 nodes) + 36912 trees (3 nodes, reduced grammar {X1,Dx1,V; -A, i*A, A/i, A/c, A-c, i-A, A-u; * + -}) + fixed list'),
     guards=dict(classes=['tree:with-factor', 'tree:no-factor', 'factor:interval:ends-inside:starts-inside', 'factor:interval:ends-inside', 'factor:interval:starts-inside', 'factor:point:ends-inside:starts-inside', 'factor:empty:ends-inside', 'factor:interval'],
                 counters=['trees']),
     assumptions=[A_SHAPE, A_POLY],
@@ -345,7 +345,7 @@ CHECKS['C17'] = dict(
                        [unit('d-chk-n%d' % n, 'checks/c17_quadrature.cpp', 'chk', shards=4, flags=['-DVF_N=%d' % n]) for n in ([3] if tier == 'quick' else [3, 5])],
     rule='cases = (type, grid, n, weight, order pair, window pair, pattern). Non-trivial = exactness regime with a non-zero exact integral.',
     bounds=dict(quick='n in {1,2,3,4,6}; 5 weights; 7 order pairs; 2 grids x 256 window pairs x 3 patterns', thorough='n = 1..8; 13 order pairs; 4 patterns'),
-    guards=dict(classes=['exact-regime', 'inexact-regime', 'nocommon'], counters=['inexact_regime_differs']),
+    guards=dict(classes=['exact-regime', 'inexact-regime', 'nocommon', 'same-object'], counters=['inexact_regime_differs']),
     assumptions=['inputs outside the alphabet are not covered; this is enumeration evidence for a numerical claim'],
 )
 
